@@ -61,6 +61,8 @@ func (e *Engine) invoke(st *State, th *Thread, fnv Value, args []Value, inst ssa
 			next(fr)
 		} else if th.Panicking {
 			e.unwind(st, th)
+		} else if len(th.Frames) > 0 && th.top().recovering {
+			e.finishRecover(st, th)
 		}
 	}
 	if f.B != nil {
